@@ -47,6 +47,8 @@ const PLAN_TEXT: &str = "[[entries]]\nname = \"witness\"\n[entries.metadata]\nve
 const STORE_TEXT: &str = "[metadata]\nold = \"kept\"\n[metadata.deep]\nlist = [1, 2.5, true]\n";
 const DESCRIPTOR_OK: &str = "api = \"0.10\"\n[buildpack]\nid = \"verif/witness\"\nversion = \"1.2.3\"\n[metadata]\ncustom = { k = \"v\", n = [1, 2] }\n";
 
+// what an earlier build left behind: LONGER than anything this build writes, so a write that does not truncate shows
+fn old_content(kind: &str) -> Vec<u8> { let mut v = Vec::new(); for i in 0..400 { v.extend_from_slice(format!("old_{kind}_{i} = \"{}\"\n", "x".repeat(30)).as_bytes()); } v }
 fn run_one(exe_rtbp: &Path, c: &Cfg, r: &mut Report) {
     r.evaluations += 1;
     if c.toml != "ok" || c.exe == "other" || c.argc_delta != 0 || !c.missing_var.is_empty() || c.behaviour != "pass" || !c.parts.is_empty() || c.preexisting || c.store != "absent" || c.plan_file != "ok" {
@@ -92,9 +94,9 @@ fn run_one(exe_rtbp: &Path, c: &Cfg, r: &mut Report) {
         _ => {}
     }
     if c.preexisting {
-        fs::write(&plan_out, b"OLD-PLAN").unwrap();
-        fs::write(layers.join("launch.toml"), b"OLD-LAUNCH").unwrap();
-        for base in ["build", "launch"] { for s in ["cdx.json", "spdx.json", "syft.json"] { fs::write(layers.join(format!("{base}.sbom.{s}")), b"OLD-SBOM").unwrap(); } }
+        fs::write(&plan_out, old_content("plan")).unwrap();
+        fs::write(layers.join("launch.toml"), old_content("launch")).unwrap();
+        for base in ["build", "launch"] { for s in ["cdx.json", "spdx.json", "syft.json"] { fs::write(layers.join(format!("{base}.sbom.{s}")), old_content("sbom")).unwrap(); } }
         fs::create_dir_all(layers.join("somelayer")).unwrap();
         fs::write(layers.join("somelayer.toml"), b"[types]\nlaunch = true\n").unwrap();
     }
